@@ -1,5 +1,6 @@
 (* C02 — Rendering is total: any template on any data yields output or an error.
-   Statements only; proofs in proofs/SafeProofs.v.
+   Statements only; proofs in proofs/SafeProofs.v (no panic site but 900/303/304), ValidProofs.v
+   (everything written is valid UTF-8, hence not 303/304) and ValidFilters.v (filters keep text valid).
 
    Termination: [render_top] is a Gallina function — structural recursion on the template, on the
    item lists of loops and on the partial nesting depth — so for every template, data object,
@@ -7,22 +8,53 @@
    sites of the model (every `panic!`/`expect`/`unwrap`/arithmetic trap of the modelled Rust code
    is such a site).  The theorems below show which sites can be reached.
 
-   FULL STATEMENT (not proved in full): no panic site at all is reachable.
-   PROVED (render_never_panics_partial): the only reachable sites are
-     900  slice::sort_by on a comparator that is not a total preorder  (the recorded known finding
-          sort-incomparable; by C14.sort_by_unspecified_iff it is reached exactly on such inputs), and
-     303/304  String::from_utf8(..).expect in capture / ifchanged, whose safety is the UTF-8
-          validity of what the body wrote (every write is `encode` of a string; the closure of
-          valid strings under all filters is not proved — the correspondence runs check the bytes). *)
-From LV Require Import Base Value Stack Filters_math Filters_html Filters_seq Eval StackProofs SafeProofs.
+   PROVED (render_never_panics): for every well-formed template (a cycle tag has a value, as the
+   parser guarantees) whose text, names and literals are valid characters, every data object of
+   valid strings, every partial store of such templates, every nesting depth and every sink, the
+   only panic site that can be reached is
+     900  slice::sort_by on a comparator that is not a total preorder (the recorded known finding
+          sort-incomparable; by C14.sort_by_unspecified_iff it is reached exactly on such inputs).
+   In particular the two `String::from_utf8(..).expect` sites of capture / ifchanged (303, 304)
+   are unreachable, because everything a render writes is the UTF-8 encoding of valid characters
+   (render_output_is_utf8: what an unbounded sink received decodes, to valid text) — an invariant
+   of the whole evaluation: of lookups, of every math / html / url / string / array filter
+   (ValidFilters.apply_filter_vv), of loops, captures and partials.  "Valid character" is what a
+   Rust `String` can hold, so these hypotheses are the type invariant of the inputs; the oracle
+   tables (float printing, case mapping, grapheme segmentation) are assumed to return valid text
+   (they are Rust strings observed from the implementation).
+   render_never_panics_weaker is the same without any validity hypothesis, with 303/304 allowed.
+   Outside the theorem: the `date` filter (C17 proves strftime total) and the jekyll / shopify /
+   extra filters, which are explored on the implementation only; Rust-level panics below the
+   model (allocation, stack depth). *)
+From LV Require Import Base Value Stack Utf8 Filters_math Filters_html Filters_seq Eval StackProofs SafeProofs ValidProofs ValidFilters.
 
-Theorem render_never_panics_partial : forall O ps depth t data k,
+Theorem render_never_panics : forall O, oracle_valid O -> forall ps,
+  (forall name, match ps name with Ok b => twf b /\ tvalid b | Panic _ => False | _ => True end) ->
+  forall depth t data k, twf t -> tvalid t -> ov data = true ->
+  match render_top O ps depth t data k with
+  | (OPanicked n, _, _) => n = site_sort_unspecified
+  | _ => True
+  end.
+Proof. exact ValidFilters.render_panic_free. Qed.
+(* whatever a render emits is valid UTF-8 *)
+Theorem render_output_is_utf8 : forall O, oracle_valid O -> forall ps,
+  (forall name, match ps name with Ok b => twf b /\ tvalid b | Panic _ => False | _ => True end) ->
+  forall depth t data, twf t -> tvalid t -> ov data = true ->
+  match render_top O ps depth t data sink0 with
+  | (_, _, k') => exists text, forallb valid_char text = true /\ acc k' = encode text /\ decode (acc k') = Some text
+  end.
+Proof. exact ValidFilters.render_output_utf8. Qed.
+Theorem render_never_panics_weaker : forall O ps depth t data k,
   (forall name, match ps name with Ok b => twf b | Panic _ => False | _ => True end) -> twf t ->
   match render_top O ps depth t data k with
   | (OPanicked n, _, _) => n = site_sort_unspecified \/ n = 303%N \/ n = 304%N
   | _ => True
   end.
 Proof. exact SafeProofs.render_top_no_panic. Qed.
+(* every modelled filter returns valid text when given valid text *)
+Theorem filters_keep_text_valid : forall O, oracle_valid O -> forall f v args r,
+  vv v = true -> forallb vv args = true -> apply_filter O f v args = Ok r -> vv r = true.
+Proof. exact ValidFilters.apply_filter_vv. Qed.
 (* every construct keeps the invariant: a runtime with a global and a counter layer, and no panic *)
 Theorem every_node_safe : forall O ps rec,
   (forall name, match ps name with Ok b => twf b | Panic _ => False | _ => True end) ->
@@ -39,19 +71,19 @@ Proof. exact SafeProofs.math_filter_np. Qed.
 Theorem html_filters_never_panic : forall O f v, not_panic (html_filter O f v) = true.
 Proof. exact SafeProofs.html_filter_np. Qed.
 Theorem string_array_filters_only_sort_site : forall O f v args,
-  match seq_filter O f v args with Panic n => n = site_sort_unspecified \/ n = 303%N \/ n = 304%N | _ => True end.
+  match seq_filter O f v args with Panic n => n = site_sort_unspecified | _ => True end.
 Proof. exact SafeProofs.seq_filter_safe. Qed.
 (* expressions and variable paths never panic (missing steps are errors) *)
 Theorem expressions_never_panic : forall O e s, not_panic (eval_expr O e s) = true.
 Proof. exact SafeProofs.eval_expr_np. Qed.
-Theorem conditions_safe : forall O c s, match eval_cond O c s with Panic n => allowed n | _ => True end.
+Theorem conditions_safe : forall O c s, match eval_cond O c s with Panic n => n = site_sort_unspecified | _ => True end.
 Proof. exact SafeProofs.eval_cond_safe. Qed.
 (* assignments and counters always find their layer *)
 Theorem set_global_total : forall x v r, has_global r = true -> exists r', set_global x v r = Ok r'.
 Proof. exact SafeProofs.set_global_safe. Qed.
 Theorem set_index_total : forall x v r, has_index r = true -> exists r', set_index x v r = Ok r'.
 Proof. exact SafeProofs.set_index_safe. Qed.
-Theorem cycle_needs_a_value : forall name max g, max <> 0 -> match cycle_step name max g with Panic n => allowed n | _ => True end.
+Theorem cycle_needs_a_value : forall name max g, max <> 0 -> match cycle_step name max g with Panic n => n = site_sort_unspecified | _ => True end.
 Proof. exact SafeProofs.cycle_step_safe. Qed.
 
 (* non-vacuity: a well-formed template using for, tablerow, cycle, capture, assign and a filter on
@@ -72,8 +104,27 @@ Proof.
   split; [|vm_compute; split; reflexivity].
   repeat (constructor; try discriminate).
 Qed.
+(* the validity hypotheses are satisfiable: the same template and the oracle without tables *)
+Example c02_hypotheses_nonvacuous :
+  oracle_valid no_oracle_v /\
+  tvalid [NFor [120%N] (RCounted (ELit (VScalar (SInt 1))) (ELit (VScalar (SInt 3)))) None None false
+            [NCycle [] [ELit (VScalar (SStr [97%N])); ELit (VScalar (SStr [233%N]))];
+             NCapture [99%N] [NOutput (EVar (SStr [120%N]) [], [(FS QUpcase, [])])]] None].
+Proof.
+  split.
+  - split; [|split; [|split]].
+    + intro f. reflexivity.
+    + intros c H. cbn. unfold sv. cbn [forallb]. rewrite H. reflexivity.
+    + intros c H. cbn. unfold sv. cbn [forallb]. rewrite H. reflexivity.
+    + intros s H. cbn. unfold sv in *. induction s as [|c t IH]; [reflexivity|]. cbn [forallb map] in *.
+      apply andb_true_iff in H as [H1 H2]. rewrite H1, IH by exact H2. reflexivity.
+  - repeat (constructor; try reflexivity).
+Qed.
 
-Print Assumptions render_never_panics_partial.
+Print Assumptions render_never_panics.
+Print Assumptions render_output_is_utf8.
+Print Assumptions render_never_panics_weaker.
+Print Assumptions filters_keep_text_valid.
 Print Assumptions every_node_safe.
 Print Assumptions table_store_ok.
 Print Assumptions math_filters_never_panic.
